@@ -98,10 +98,15 @@ def build_rinklecate():
 
 
 # --------------------------------------------------------------------------- inkdrive
+PROBE_FLAVOUR = None
+
+
 def run_inkdrive(scenarios, wd, name="run", flavour="debug", timeout=600, env_extra=None):
     """scenarios: list of dicts. Returns list of records (dicts).  An abnormal exit of the
     harness process is attributed to the last begun case: a synthetic record
     {"case":..,"op":"abort","res":"abort"} is inserted and the remaining cases are re-run."""
+    if PROBE_FLAVOUR and name.startswith("probe"):
+        flavour = PROBE_FLAVOUR          # (C03: the replays of the explored paths run in another build profile)
     exe = build(flavour)
     records = []
     pending = list(scenarios)
